@@ -97,3 +97,5 @@ Definition vec_resize {A} (l : list A) (n : nat) (v : A) : list A :=
   if Nat.leb n (length l) then firstn n l else l ++ repeat v (n - length l).
 Definition list_max_opt (l : list N) : option N :=
   match l with [] => None | x :: r => Some (fold_left N.max r x) end.
+Definition list_min_opt (l : list N) : option N :=
+  match l with [] => None | x :: r => Some (fold_left N.min r x) end.
